@@ -23,7 +23,8 @@ Record daemon := mkDaemon {
   d_norms : list (string * string);            (* normal forms (trim + NFKC) of the names and passwords used that are not normal *)
   d_creds : list (N * (string * string));      (* stored (hash, salt) id -> (name in the weak salt, normalised password) it was made from *)
   d_key : N;                                   (* which storage / session key: equal numbers = same key *)
-  d_prior : list op                            (* what happened to it before the probes: restarts with an edited configuration *)
+  d_prior : list op                            (* what happened to it before the probes: restarts with an edited configuration
+                                                  (each with a sender id of its own: the model's stand-in for the random draw) *)
 }.
 
 Inductive badkind :=
@@ -34,7 +35,8 @@ Inductive badkind :=
   | BGarbage        (* an invented string *)
   | BAdminVariant   (* prefix, extension or other letter case of the admin token *)
   | BEmpty          (* "Bearer " followed by nothing *)
-  | BForged.        (* computed by the harness from two tokens that share key and nonce (Poly1305 key recovery); only with --f20d *)
+  | BForged.        (* computed by the harness from two tokens that share key and nonce (Poly1305 key recovery):
+                       possible only when a restarted daemon repeats a nonce (finding F20d, repaired by e31fb922) *)
 
 Inductive cred :=
   | CNone                                        (* no Authorization header, or one the daemon does not read as a bearer *)
@@ -45,7 +47,9 @@ Inductive cred :=
 
 Inductive probe :=
   | PReq (c : cred) (q : request)                            (* any route except /auth/login, /auth/logout *)
-  | PLogin (basic : option (string * string)) (c : cred).    (* POST /auth/login *)
+  | PLogin (basic : option (string * string)) (c : cred)     (* POST /auth/login *)
+  | PNonceRepeat (repeated : bool).                          (* the first token issued by this (restarted) daemon carries the
+                                                                same 12 nonce bytes as the first token of its first life *)
 
 Record case := mkCase {
   c_d : daemon;
@@ -60,10 +64,13 @@ Record case := mkCase {
 Definition prims_of (d : daemon) : prims := toy (d_norms d) (d_creds d).
 
 Definition boot (d : daemon) : option inst :=
-  match start (d_cfg d) (d_key d) with
+  match start (d_cfg d) (d_key d) 0 with
   | Some st => option_map fst (run (prims_of d) st (d_prior d))
   | None => None
   end.
+
+(** The nonce the next login will use (crypt.rs:70-82). *)
+Definition next_nonce (st : inst) : N * N := (i_sender st, i_ctr st).
 
 Definition token_at (d : daemon) (name pw : string) : option string :=
   match boot d with
@@ -137,6 +144,12 @@ Definition agrees (c : case) : bool :=
               | LForbidden => sc =? 403
               | LPanic => sc =? 0
               end
+          | None => false
+          end
+      | PNonceRepeat repeated =>
+          match start (d_cfg d) (d_key d) 0 with
+          | Some first =>
+              Bool.eqb repeated ((fst (next_nonce first) =? fst (next_nonce st0)) && (snd (next_nonce first) =? snd (next_nonce st0)))
           | None => false
           end
       end
@@ -237,6 +250,7 @@ Definition c20_ok (c : case) : bool :=
           | _ => negb (sc =? 200)
           end
       end
+  | PNonceRepeat repeated => negb repeated     (* no (key, nonce) pair is used twice *)
   end.
 
 (** Indices of cases on which a predicate fails. *)
